@@ -139,7 +139,9 @@ def analyse(mod, run, label):
                 cands = [(inc["v"], inc["b"]) for inc in tm.imap[v["v"]]["incoming"] if inc["b"] in live and (inc["b"], rr.block.id) not in dead]
             for c, at in cands:
                 # the value as refined by the branches that dominate the block it leaves from (the clamp may be an if/return)
-                a = iv.ival_at(c, tm.bmap[at])[0]; r = a if r is None else (min(r[0], a[0]), max(r[1], a[1]))
+                a = iv.ival_at(c, tm.bmap[at])[0]
+                if at != rr.block.id: a = iv.ival_on_edge(c, tm.bmap[at], rr.block)      # ... and by the branch that sends it to the return block
+                r = a if r is None else (min(r[0], a[0]), max(r[1], a[1]))
         run.check(r is not None and r[1] <= (1 << bits) - 1, "T2-rounded-mantissa-fits-field", {"to_bits": bits, "result_range": [r[0], r[1]] if r else None},
                   Finding("T2-rounding-carry-lost", "truncateMantissa", "%d-bit" % bits, "range", "truncateMantissa(m, 53, %d) ranges over [%s, %s] for a normal mantissa; the field keeps %d bits (max %d): a mantissa that rounds up to 2^%d is stored as 0 and decodes as a different number" % (
                       bits, r and r[0], r and r[1], bits, (1 << bits) - 1, bits), loc="src/varintFloat.c", quant=str(bits)))
